@@ -3,6 +3,7 @@ package main
 import (
 	"runtime/debug"
 	"syscall"
+	"unsafe"
 )
 
 // Guard is an mmap'ed region [PROT_NONE page][data pages][PROT_NONE page] with
@@ -51,4 +52,28 @@ func (g *Guard) Free() {
 		syscall.Munmap(g.m)
 		g.dead = true
 	}
+}
+
+// guardedQuery returns a string equal to q whose last byte is the last byte
+// before a PROT_NONE page (one region per process, reused: the string is valid
+// until the next call). A lookup that reads past the end of its query string -
+// through a hand-built slice header, a word-at-a-time load - faults, and the
+// fault is a recoverable panic. The bytes in front of the string are 0xa5.
+var queryGuard *Guard
+
+func guardedQuery(q string) (string, bool) {
+	if queryGuard == nil {
+		queryGuard = NewGuard(make([]byte, 1<<17))
+		for i := range queryGuard.Buf {
+			queryGuard.Buf[i] = 0xa5
+		}
+	}
+	buf := queryGuard.Buf
+	if len(q) == 0 || len(q) > len(buf)-64 {
+		return "", false
+	}
+	dst := buf[len(buf)-len(q):]
+	copy(dst, q)
+	buf[len(buf)-len(q)-1] = 0xa5
+	return unsafe.String(&dst[0], len(q)), true
 }
